@@ -32,3 +32,7 @@ PROPS["C06"] = dict(pkg="xmpp", test="TestVf_C06", race=False, level="exploratio
     text="Quick 20k / thorough 2M (route table, packet) pairs: tables of 0-8 routes, each a conjunction of 0-3 Packet / StanzaType / IQNamespaces matchers with letter-case variants and a catch-all at any position; packets are parsed from XML by the library as the receive loop does. A 40-line three-valued reference interpreter (true / false / documentation silent) names the route that must run; handler invocations per route and everything passed to the Sender are recorded. For an unmatched IQ get/set the single reply is marshalled and re-parsed: type error, same id, from/to swapped, feature-not-implemented.",
     note=TB + " Cases the documentation does not decide (namespaces differing only in case, unregistered payload under a namespace matcher) are counted and not asserted.",
     assumptions=["reference interpreter in harness/xmpp/c06_test.go"])
+PROPS["C01"] = dict(pkg="stanza", test="TestVf_C01", race=False, level="exploration", timeout=(300, 1800), floor=1000,
+    technique="runtime monitor: reflective value generator + parse-back equality, byte fix-point and metamorphic skeleton oracle",
+    text="Values of Message, Presence, IQ, the seven stream-management elements, SASLAuth and Handshake are built by a reflective generator (interfaces filled from the live registry and closed alternative tables, generic Node trees with explicit namespaces, two harness extension types incl. one registered through the * alias): one single-path probe per field path to struct depth 6 (about 680 paths), every registered message/presence extension alone and in every ordered pair, and quick 5k / thorough 200k random combinations with hostile text. Each value is marshalled, parsed back with xml.Unmarshal and with NextPacket inside a stream, compared with a normalising comparator that collects every differing field, re-marshalled for the byte fix-point, and its raw token skeleton is compared with the skeleton of the same structure carrying placeholders instead of text (metamorphic injection oracle). Exploration: the input space is unbounded; the path probes make field coverage systematic.",
+    note=TB, assumptions=["encoding/xml", "role table for name/raw-XML fields in harness/stanza/reflectkit_test.go"])
